@@ -392,6 +392,45 @@ func (p c18) structValidation(c *core.Ctx) {
 		tag = []string{`prefix:"sv,validate"`, `value:"${sv},validate"`}[c.Rng.Intn(2)]
 		c.Count("struct_cases_with_required_nested_struct", 1)
 	}
+	if doc == "" && c.Rng.Intn(3) == 0 {
+		// the constraints sit on a struct reached through a pointer member (the outer struct states none of
+		// its own): the validator descends into non-nil pointer members by itself
+		lim := world.BuildStruct([]world.FieldSpec{
+			{Name: "Max", Type: reflect.TypeOf(0), Tag: `yaml:"max" validate:"max=60"`},
+			{Name: "Tag", Type: reflect.TypeOf(""), Tag: `yaml:"tag"`},
+		})
+		var mid reflect.Type = reflect.PointerTo(lim)
+		twoLevels := c.Rng.Intn(3) == 0
+		if twoLevels {
+			mid = reflect.PointerTo(world.BuildStruct([]world.FieldSpec{{Name: "Lim", Type: reflect.PointerTo(lim), Tag: `yaml:"lim"`}}))
+		}
+		inner = world.BuildStruct([]world.FieldSpec{
+			{Name: "S", Type: reflect.TypeOf(""), Tag: `yaml:"s"`},
+			{Name: "L", Type: mid, Tag: `yaml:"l"`},
+		})
+		ft = inner
+		if c.Rng.Intn(2) == 0 {
+			ft = reflect.PointerTo(inner)
+		}
+		want = reflect.New(inner).Elem()
+		want.Field(0).SetString(sval)
+		doc = fmt.Sprintf("sv:\n  s: %s\n", sval)
+		if c.Rng.Intn(4) != 0 { // (else: no sub-section, the pointer stays nil and nothing is objected to)
+			lv := reflect.New(lim)
+			lv.Elem().Field(0).SetInt(int64(port))
+			if twoLevels {
+				doc += fmt.Sprintf("  l:\n    lim:\n      max: %d\n", port)
+				mv := reflect.New(mid.Elem())
+				mv.Elem().Field(0).Set(lv)
+				want.Field(1).Set(mv)
+			} else {
+				doc += fmt.Sprintf("  l:\n    max: %d\n", port)
+				want.Field(1).Set(lv)
+			}
+		}
+		tag = []string{`prefix:"sv,validate"`, `value:"${sv},validate"`}[c.Rng.Intn(2)]
+		c.Count("struct_cases_with_constraints_behind_pointer_members", 1)
+	}
 	fails := c18Validator.Struct(want.Interface()) != nil
 	_, r := startHolder(c, []world.FieldSpec{{Name: "F", Type: ft, Tag: tag}}, doc)
 	c.Count("starts", 1)
